@@ -86,20 +86,6 @@ Qed.
 Lemma app_one_neq {A} (l : list A) x : l <> l ++ [x].
 Proof. intros H. apply (f_equal (@length A)) in H. rewrite app_length in H. simpl in H. lia. Qed.
 
-Lemma hsucc_hist st st' : In st' (hsucc st) -> st_hist st' = st_hist st.
-Proof.
-  unfold hsucc. intros H. apply in_app_or in H. destruct H as [H|H]; [|apply in_app_or in H; destruct H as [H|H]].
-  - unfold deliver_succs in H. destruct (st_closed st); [destruct H|].
-    destruct (st_fifo st) as [|f q]; [destruct H|].
-    apply in_map_iff in H. destruct H as (ss & <- & _). reflexivity.
-  - unfold apply_succs in H. apply in_flat_map in H. destruct H as ([s x0] & _ & H). simpl in H.
-    destruct (alookup s (st_strs st)) as [x|]; [|destruct H].
-    destruct (can_apply st x); [|destruct H]. destruct H as [<-|[]]. reflexivity.
-  - unfold disc_succs in H. apply in_flat_map in H. destruct H as ([s x0] & _ & H). simpl in H.
-    destruct (alookup s (st_strs st)) as [x|]; [|destruct H].
-    destruct (can_disc st x); [|destruct H]. destruct H as [<-|[]]. reflexivity.
-Qed.
-
 Lemma relayed_facts st w wr ks k :
   In k (relayed_keys st w wr ks) ->
   In k ks /\ excluded st w wr ks k = false /\
@@ -113,36 +99,67 @@ Proof.
   destruct He as [He _]. apply negb_false_iff in He. exact He.
 Qed.
 
+Definition push_facts (st : state) (w : N) (wr : writer) (ks : list N) (f : frame) : Prop :=
+  open_writer_of st w = Some wr /\ streams (w_mode wr) = true /\
+  f_w f = w /\ f_seq f = w_seq wr + 1 /\ f_orig f = ks /\ f_unauth f = unauth_keys st w wr ks /\
+  forall k, In k (f_keys f) ->
+    In k ks /\ excluded st w wr ks k = false /\
+    (st_unowned st = false -> owned wr k = true /\ authorized st w wr k = true).
+
+Lemma dw_result_push st b w wr ks st' f :
+  open_writer_of st w = Some wr -> dw_result (set_bg st b) w wr ks st' ->
+  st_hist st' = st_hist st ++ [f] -> push_facts st w wr ks f.
+Proof.
+  intros Ew H Hh. destruct H; simpl in Hh.
+  - exfalso. exact (app_one_neq _ _ Hh).
+  - exfalso. exact (app_one_neq _ _ Hh).
+  - apply app_inj_tail in Hh. destruct Hh as [_ <-]. unfold push_facts. simpl.
+    repeat split; auto; apply (relayed_facts st) in H1; tauto.
+Qed.
+
+Lemma set_bg_same st : set_bg st (st_bg st) = st.
+Proof. destruct st; reflexivity. Qed.
+
+(* what a Write pushes: only keys of the frame that the writer holds and is authorized on
+   (and whose index, for a data channel written together with its index, it is authorized
+   on); nothing but a Write — by the driver or by a writer's background goroutine — ever
+   extends the history of pushed frames *)
 Theorem push_authorized st l st' f :
   lstep st l st' -> st_hist st' = st_hist st ++ [f] ->
-  exists w ks bad wr,
-    l = Vis (Write w ks bad) /\ open_writer_of st w = Some wr /\ streams (w_mode wr) = true /\
-    f_w f = w /\ f_seq f = w_seq wr + 1 /\ f_orig f = ks /\ f_unauth f = unauth_keys st w wr ks /\
-    forall k, In k (f_keys f) ->
-      In k ks /\ excluded st w wr ks k = false /\
-      (st_unowned st = false -> owned wr k = true /\ authorized st w wr k = true).
+  exists w ks wr, ((exists bad, l = Vis (Write w ks bad)) \/ l = Tau) /\ push_facts st w wr ks f.
 Proof.
   intros Hs Hh.
-  destruct l as [|o]; simpl in Hs.
-  { exfalso. rewrite (hsucc_hist _ _ Hs) in Hh. exact (app_one_neq _ _ Hh). }
   assert (Hsame : forall y, st_hist y = st_hist st -> In st' [y] -> False).
   { intros y Hy [<-|[]]. rewrite Hy in Hh. exact (app_one_neq _ _ Hh). }
+  destruct l as [|o]; simpl in Hs.
+  { unfold hsucc in Hs. apply in_app_or in Hs. destruct Hs as [H|H]; [|apply in_app_or in H; destruct H as [H|H];
+      [|apply in_app_or in H; destruct H as [H|H]]].
+    - exfalso. unfold deliver_succs in H. destruct (st_closed st); [destruct H|].
+      destruct (st_fifo st) as [|f0 q]; [destruct H|].
+      apply in_map_iff in H. destruct H as (ss & <- & _). simpl in Hh. exact (app_one_neq _ _ Hh).
+    - exfalso. unfold apply_succs in H. apply in_flat_map in H. destruct H as ([s x0] & _ & H). simpl in H.
+      destruct (alookup s (st_strs st)) as [x|]; [|destruct H].
+      destruct (can_apply st x); [|destruct H]. revert H. apply Hsame. reflexivity.
+    - exfalso. unfold disc_succs in H. apply in_flat_map in H. destruct H as ([s x0] & _ & H). simpl in H.
+      destruct (alookup s (st_strs st)) as [x|]; [|destruct H].
+      destruct (can_disc st x); [|destruct H]. revert H. apply Hsame. reflexivity.
+    - unfold bg_succs in H. apply in_flat_map in H. destruct H as ([w kss0] & _ & H). simpl in H.
+      destruct (alookup w (st_bg st)) as [[|ks rest]|]; try destruct H.
+      destruct (open_writer_of st w) as [wr|] eqn:Ew.
+      + apply do_write_cases in H. exists w, ks, wr. split; [right; reflexivity|].
+        eapply dw_result_push; eauto.
+      + exfalso. revert H. apply Hsame. reflexivity. }
   revert Hs. unfold vstep. destruct (driver_blocked st); [intros []|].
   destruct o; simpl.
   - intros H; exfalso; revert H.
     destruct (alookup w (st_writers st)); [apply Hsame; reflexivity|].
     destruct (open_writer_ok st w chans auths); apply Hsame; reflexivity.
-  - intros H; exfalso; revert H. apply Hsame. reflexivity.
-  - intros H; exfalso; revert H. apply Hsame. reflexivity.
+  - intros H; exfalso; revert H. destruct (bg_active st w); apply Hsame; reflexivity.
+  - intros H; exfalso; revert H. destruct (bg_active st w); apply Hsame; reflexivity.
   - destruct (open_writer_of st w) as [wr|] eqn:Ew; [|intros H; exfalso; revert H; apply Hsame; reflexivity].
-    destruct (bad_hits st wr keys bad || negb (valid_frame st wr keys));
-      [intros H; exfalso; revert H; apply Hsame; reflexivity|].
-    destruct (streams (w_mode wr) && negb (st_closed st && negb (st_deadinlet st))) eqn:Es;
-      [|intros H; exfalso; revert H; apply Hsame; reflexivity].
-    match goal with |- In _ (if ?c then _ else _) -> _ => destruct c end; [|intros []].
-    intros [<-|[]]. simpl in Hh. apply app_inj_tail in Hh. destruct Hh as [_ <-].
-    apply andb_true_iff in Es. destruct Es as [Es _].
-    exists w, keys, bad, wr. simpl. repeat split; auto; apply relayed_facts in H; tauto.
+    destruct (bg_active st w); [intros H; exfalso; revert H; apply Hsame; reflexivity|].
+    intros H. apply do_write_cases in H. exists w, keys, wr. split; [left; exists bad; reflexivity|].
+    rewrite <- (set_bg_same st) in H. eapply dw_result_push; eauto.
   - intros H; exfalso; revert H.
     destruct (st_closed st); [apply Hsame; reflexivity|].
     destruct (alookup s (st_strs st)); apply Hsame; reflexivity.
@@ -158,6 +175,11 @@ Proof.
       revert H. apply Hsame. reflexivity.
     + destruct (st_fifo st) as [|f0 q]; [destruct H|].
       apply in_map_iff in H. destruct H as (ss & <- & _). simpl in Hh. exact (app_one_neq _ _ Hh).
+  - intros H; exfalso; revert H.
+    destruct (open_writer_of st w); [|apply Hsame; reflexivity].
+    destruct (bg_active st w); apply Hsame; reflexivity.
+  - intros H; exfalso; revert H.
+    destruct (alookup w (st_bg st)) as [[|? ?]|]; try (apply Hsame; reflexivity). intros [].
 Qed.
 
 (* ------------------------------------------------------------------ filtering at receive time *)
@@ -277,6 +299,42 @@ Qed.
 (* With the fixed writer (dead-inlet flag off): whenever a Write cannot proceed, the database
    is open, the relay can deliver, and after that delivery the Write can proceed. Writers
    are never blocked by a state in which nothing else can move. *)
+Lemma do_write_blocked st w wr ks bad :
+  st_deadinlet st = false -> do_write st w wr ks bad = [] ->
+  st_closed st = false /\ (st_cap st < length (st_fifo st))%nat /\
+  bad_hits st wr ks bad || negb (valid_frame st wr ks) = false /\ streams (w_mode wr) = true.
+Proof.
+  intros Hd. unfold do_write.
+  destruct (bad_hits st wr ks bad || negb (valid_frame st wr ks)) eqn:Ebv; [discriminate|].
+  destruct (streams (w_mode wr) && negb (st_closed st && negb (st_deadinlet st))) eqn:Es; [|discriminate].
+  rewrite Hd in Es. simpl in Es. rewrite andb_true_r in Es.
+  destruct (st_closed st) eqn:Ec; [rewrite andb_false_r in Es; discriminate|].
+  destruct (length (st_fifo st) <=? st_cap st)%nat eqn:Eg; [discriminate|]. intros _.
+  apply Nat.leb_gt in Eg. rewrite andb_true_r in Es. auto.
+Qed.
+
+Theorem do_write_never_deadlocks st w wr ks bad :
+  st_deadinlet st = false -> (length (st_fifo st) <= S (st_cap st))%nat ->
+  do_write st w wr ks bad = [] ->
+  st_closed st = false /\
+  exists f q ss, st_fifo st = f :: q /\ In ss (deliver_all f (st_strs st)) /\
+    In (set_fifo (set_strs st ss) q) (deliver_succs st) /\
+    do_write (set_fifo (set_strs st ss) q) w wr ks bad <> [].
+Proof.
+  intros Hd Hcap Hw. destruct (do_write_blocked _ _ _ _ _ Hd Hw) as (Ec & Hlen & Ebv & Es).
+  split; [exact Ec|].
+  destruct (st_fifo st) as [|f q] eqn:Ef; [simpl in Hlen; lia|].
+  destruct (deliver_all f (st_strs st)) as [|ss rest] eqn:Eda; [exfalso; exact (deliver_all_nonempty _ _ Eda)|].
+  exists f, q, ss. split; [reflexivity|]. split; [rewrite Eda; left; reflexivity|]. split.
+  - unfold deliver_succs. rewrite Ec, Ef, Eda. left. reflexivity.
+  - unfold do_write.
+    assert (Ebv' : bad_hits (set_fifo (set_strs st ss) q) wr ks bad ||
+                   negb (valid_frame (set_fifo (set_strs st ss) q) wr ks) = false) by exact Ebv.
+    rewrite Ebv'. simpl. rewrite Hd, Ec, Es. simpl. simpl in Hcap.
+    assert (Hq : (length q <=? st_cap st)%nat = true) by (apply Nat.leb_le; lia).
+    rewrite Hq. discriminate.
+Qed.
+
 Theorem write_never_deadlocks st w ks bad :
   st_deadinlet st = false -> driver_blocked st = false ->
   (length (st_fifo st) <= S (st_cap st))%nat ->
@@ -286,30 +344,52 @@ Theorem write_never_deadlocks st w ks bad :
 Proof.
   intros Hd Hb Hcap. unfold vstep at 1. rewrite Hb.
   destruct (open_writer_of st w) as [wr|] eqn:Ew; [|discriminate].
-  destruct (bad_hits st wr ks bad || negb (valid_frame st wr ks)) eqn:Ebv; [discriminate|].
-  destruct (streams (w_mode wr) && negb (st_closed st && negb (st_deadinlet st))) eqn:Es; [|discriminate].
-  rewrite Hd in Es. simpl in Es. rewrite andb_true_r in Es.
-  destruct (st_closed st) eqn:Ec; [rewrite andb_false_r in Es; discriminate|].
-  destruct (length (st_fifo st) <=? st_cap st)%nat eqn:Eg; [discriminate|]. intros _.
-  split; [reflexivity|].
-  apply Nat.leb_gt in Eg. destruct (st_fifo st) as [|f q] eqn:Ef; [simpl in Eg; lia|].
-  destruct (deliver_all f (st_strs st)) as [|ss rest] eqn:Eda; [exfalso; exact (deliver_all_nonempty _ _ Eda)|].
-  exists (set_fifo (set_strs st ss) q). split.
-  - unfold deliver_succs. rewrite Ec, Ef, Eda. left. reflexivity.
-  - assert (Hss : In ss (deliver_all f (st_strs st))) by (rewrite Eda; left; reflexivity).
-    unfold vstep.
-    assert (Hb' : driver_blocked (set_fifo (set_strs st ss) q) = false).
-    { unfold driver_blocked in *. simpl. rewrite Ec in *. simpl in *.
-      rewrite (existsb_flags _ _ (deliver_all_flags _ _ _ Hss)). exact Hb. }
-    rewrite Hb'.
-    assert (Ew' : open_writer_of (set_fifo (set_strs st ss) q) w = Some wr) by exact Ew.
-    rewrite Ew'.
-    assert (Ebv' : bad_hits (set_fifo (set_strs st ss) q) wr ks bad ||
-                   negb (valid_frame (set_fifo (set_strs st ss) q) wr ks) = false) by exact Ebv.
-    rewrite Ebv'. simpl. rewrite Hd, Ec. simpl. rewrite andb_true_r in *. rewrite Es.
-    simpl in Hcap.
-    assert (Hq : (length q <=? st_cap st)%nat = true) by (apply Nat.leb_le; lia).
-    rewrite Hq. discriminate.
+  destruct (bg_active st w) eqn:Eb; [discriminate|]. intros Hw.
+  destruct (do_write_never_deadlocks _ _ _ _ _ Hd Hcap Hw) as (Ec & f & q & ss & Ef & Hss & Hin & Hne).
+  split; [exact Ec|]. exists (set_fifo (set_strs st ss) q). split; [exact Hin|].
+  unfold vstep.
+  assert (Hb' : driver_blocked (set_fifo (set_strs st ss) q) = false).
+  { unfold driver_blocked in *. simpl. rewrite Ec in *. simpl in *.
+    rewrite (existsb_flags _ _ (deliver_all_flags _ _ _ Hss)). exact Hb. }
+  rewrite Hb'.
+  assert (Ew' : open_writer_of (set_fifo (set_strs st ss) q) w = Some wr) by exact Ew.
+  assert (Eb' : bg_active (set_fifo (set_strs st ss) q) w = false) by exact Eb.
+  rewrite Ew', Eb'. exact Hne.
+Qed.
+
+Lemma alookup_some_in {A} (l : list (N * A)) k v : alookup k l = Some v -> In (k, v) l.
+Proof.
+  induction l as [|[k' x] r IH]; simpl; [discriminate|].
+  destruct (k =? k') eqn:E; [|auto]. apply N.eqb_eq in E. subst. intros [= ->]. left. reflexivity.
+Qed.
+
+(* A Join waits only while the goroutine still has frames to write; then either its next
+   Write is enabled or (inlet full, database open) the relay can deliver. *)
+Theorem join_never_deadlocks st w :
+  st_deadinlet st = false -> driver_blocked st = false -> vstep st (Join w) = [] -> hsucc st <> [].
+Proof.
+  intros Hd Hb. unfold vstep. rewrite Hb.
+  destruct (alookup w (st_bg st)) as [[|ks rest]|] eqn:El; try discriminate. intros _.
+  pose proof (alookup_some_in _ _ _ El) as Hin.
+  set (st0 := set_bg st (aupdate w (fun _ => rest) (st_bg st))).
+  destruct (open_writer_of st w) as [wr|] eqn:Ew.
+  - destruct (do_write st0 w wr ks false) as [|y ys] eqn:Edw.
+    + assert (Hd0 : st_deadinlet st0 = false) by exact Hd.
+      destruct (do_write_blocked _ _ _ _ _ Hd0 Edw) as (Ec & Hlen & _).
+      simpl in Ec, Hlen. unfold hsucc, deliver_succs. rewrite Ec.
+      destruct (st_fifo st) as [|f q]; [simpl in Hlen; lia|].
+      destruct (deliver_all f (st_strs st)) as [|ss r] eqn:Eda; [exfalso; exact (deliver_all_nonempty _ _ Eda)|].
+      simpl. discriminate.
+    + assert (H : In y (bg_succs st)).
+      { unfold bg_succs. apply in_flat_map. exists (w, ks :: rest). split; [exact Hin|]. simpl.
+        rewrite El, Ew. fold st0. rewrite Edw. left. reflexivity. }
+      unfold hsucc. intros E. apply app_eq_nil in E. destruct E as [_ E]. apply app_eq_nil in E.
+      destruct E as [_ E]. apply app_eq_nil in E. destruct E as [_ E]. rewrite E in H. destruct H.
+  - assert (H : In st0 (bg_succs st)).
+    { unfold bg_succs. apply in_flat_map. exists (w, ks :: rest). split; [exact Hin|]. simpl.
+      rewrite El, Ew. left. reflexivity. }
+    unfold hsucc. intros E. apply app_eq_nil in E. destruct E as [_ E]. apply app_eq_nil in E.
+    destruct E as [_ E]. apply app_eq_nil in E. destruct E as [_ E]. rewrite E in H. destruct H.
 Qed.
 
 Lemma alookup_in_nodup {A} (ss : list (N * A)) s x :
@@ -336,7 +416,7 @@ Proof.
     { unfold disc_succs. apply in_flat_map. exists (s, x). split; [exact Hin|]. simpl. rewrite Hl.
       unfold can_disc. rewrite Hc, Hco, Hcl, Ep. left. reflexivity. }
     intros E. apply app_eq_nil in E. destruct E as [_ E]. apply app_eq_nil in E. destruct E as [_ E].
-    rewrite E in H. destruct H.
+    apply app_eq_nil in E. destruct E as [E _]. rewrite E in H. destruct H.
   - assert (H : In (upd_str st s apply_req) (apply_succs st)).
     { unfold apply_succs. apply in_flat_map. exists (s, x). split; [exact Hin|]. simpl. rewrite Hl.
       unfold can_apply. rewrite Hc, Hco, Ep. left. reflexivity. }
@@ -347,13 +427,13 @@ Qed.
 (* Operations on streamers, on other writers and DB.Close are always enabled for the driver *)
 Theorem other_ops_never_block st o :
   driver_blocked st = false ->
-  match o with Write _ _ _ | Sync => True | _ => vstep st o <> [] end.
+  match o with Write _ _ _ | Sync | Join _ => True | _ => vstep st o <> [] end.
 Proof.
   intros Hb. destruct o; simpl; auto; unfold vstep; rewrite Hb.
   - destruct (alookup w (st_writers st)); [discriminate|].
     destruct (open_writer_ok st w chans auths); discriminate.
-  - discriminate.
-  - discriminate.
+  - destruct (bg_active st w); discriminate.
+  - destruct (bg_active st w); discriminate.
   - destruct (st_closed st); [discriminate|]. destruct (alookup s (st_strs st)); discriminate.
   - destruct (st_closed st); discriminate.
   - destruct (st_closed st); discriminate.
@@ -363,20 +443,22 @@ Proof.
     destruct (length (st_fifo st) <=? st_cap st)%nat eqn:E; simpl; [discriminate|].
     destruct (st_fifo st) as [|f q]; [simpl in E; discriminate|].
     destruct (st_strs st) as [|[k s] r]; simpl; discriminate.
+  - destruct (open_writer_of st w); [|discriminate]. destruct (bg_active st w); discriminate.
 Qed.
 
 (* ------------------------------------------------------------------ reachable-state corollaries *)
 Theorem reachable_push_authorized chans cap ls st l st' f :
   run (init chans cap) ls st -> lstep st l st' -> st_hist st' = st_hist st ++ [f] ->
-  exists w ks bad wr,
-    l = Vis (Write w ks bad) /\ open_writer_of st w = Some wr /\ streams (w_mode wr) = true /\
+  exists w ks wr,
+    ((exists bad, l = Vis (Write w ks bad)) \/ l = Tau) /\
+    open_writer_of st w = Some wr /\ streams (w_mode wr) = true /\
     f_w f = w /\ f_orig f = ks /\
     forall k, In k (f_keys f) ->
       In k ks /\ owned wr k = true /\ authorized st w wr k = true /\ excluded st w wr ks k = false.
 Proof.
   intros Hr Hs Hh. destruct (run_flags _ _ _ Hr) as (Hu & _).
-  destruct (push_authorized _ _ _ _ Hs Hh) as (w & ks & bad & wr & E1 & E2 & E3 & E4 & _ & E5 & _ & Hk).
-  exists w, ks, bad, wr. repeat split; auto; destruct (Hk k H) as (A & B & C); auto; apply C; exact Hu.
+  destruct (push_authorized _ _ _ _ Hs Hh) as (w & ks & wr & Hl & E2 & E3 & E4 & _ & E5 & _ & Hk).
+  exists w, ks, wr. repeat split; auto; destruct (Hk k H) as (A & B & C); auto; apply C; exact Hu.
 Qed.
 
 Theorem reachable_write_never_deadlocks chans cap ls st w ks bad :
@@ -386,6 +468,12 @@ Theorem reachable_write_never_deadlocks chans cap ls st w ks bad :
 Proof.
   intros Hr Hb Hv. destruct (run_flags _ _ _ Hr) as (_ & Hd & _).
   apply write_never_deadlocks; auto. apply (inv_cap _ (Inv_reachable_gen _ _ _ _ _ _ Hr)).
+Qed.
+
+Theorem reachable_join_never_deadlocks chans cap ls st w :
+  run (init chans cap) ls st -> driver_blocked st = false -> vstep st (Join w) = [] -> hsucc st <> [].
+Proof.
+  intros Hr. destruct (run_flags _ _ _ Hr) as (_ & Hd & _). apply join_never_deadlocks. exact Hd.
 Qed.
 
 Theorem reachable_driver_never_stuck chans cap ls st :
